@@ -67,6 +67,15 @@ func runLinHistory(t testing.TB, tr *tracer, backend string, bs int, G, R int, s
 			}
 		}
 	}
+	if sess.srv != nil {
+		// perturb the schedule of the os-backed server's worker pool at the work.begin hook
+		var cnt int64
+		installHook(t, func(point string, a, b uint64) {
+			if point == "work.begin" && atomic.AddInt64(&cnt, 1)%3 == 0 {
+				time.Sleep(time.Duration(20+seed%60) * time.Microsecond)
+			}
+		})
+	}
 	go func() {
 		if sess.srv != nil {
 			sess.srv.Serve()
